@@ -115,6 +115,15 @@ func rewriteIteratorRanges(path string, src []byte) ([]byte, bool) {
 	}
 	var edits []textEdit
 	used := map[string]bool{}
+	labeled := map[*ast.RangeStmt]bool{}
+	ast.Inspect(file, func(n ast.Node) bool {
+		if ls, ok := n.(*ast.LabeledStmt); ok {
+			if rs, ok := ls.Stmt.(*ast.RangeStmt); ok {
+				labeled[rs] = true
+			}
+		}
+		return true
+	})
 	ast.Inspect(file, func(n ast.Node) bool {
 		rs, ok := n.(*ast.RangeStmt)
 		if !ok {
@@ -176,14 +185,22 @@ func rewriteIteratorRanges(path string, src []byte) ([]byte, bool) {
 			if rs.Tok != token.DEFINE && rs.Key != nil {
 				return true
 			}
-			if !simple(call.Args[0]) {
-				return true
-			}
 			idx := k
 			if idx == "" || idx == "_" {
 				idx = fmt.Sprintf("ib%d_", off(rs.Pos()))
 			}
-			head := fmt.Sprintf("for %s := len(%s) - 1; %s >= 0; %s-- ", idx, arg, idx, idx)
+			pre := ""
+			if !simple(call.Args[0]) {
+				// evaluate the list once, in a block of its own around the loop
+				if labeled[rs] {
+					return true
+				}
+				tmp := fmt.Sprintf("il%d_", off(rs.Pos()))
+				pre = fmt.Sprintf("{ %s := %s; ", tmp, arg)
+				arg = tmp
+				edits = append(edits, textEdit{off(rs.End()), off(rs.End()), " }"})
+			}
+			head := fmt.Sprintf("%sfor %s := len(%s) - 1; %s >= 0; %s-- ", pre, idx, arg, idx, idx)
 			edits = append(edits, textEdit{off(rs.Pos()), off(rs.Body.Lbrace), head})
 			if v != "" && v != "_" {
 				edits = append(edits, textEdit{off(rs.Body.Lbrace) + 1, off(rs.Body.Lbrace) + 1, fmt.Sprintf(" %s := %s[%s];", v, arg, idx)})
